@@ -149,7 +149,7 @@ def walk(w, rnd, profile, steps, opts):
             elif k < 0.95:
                 do(w.subscribe(a, [(rnd.choice(TOPICS), rnd.randint(0, 2)) for _ in range(rnd.randint(1, 3))]))
             else:
-                do(w.subscribe(a, rnd.choice([5, None])))
+                do(w.subscribe(a, rnd.choice([5, None, [], []])))       # (an empty list names no topic at all)
         elif name == "unsubscribe":
             k = rnd.random()
             if k < 0.45:
@@ -157,7 +157,7 @@ def walk(w, rnd, profile, steps, opts):
             elif k < 0.95:
                 do(w.unsubscribe(a, [rnd.choice(TOPICS) for _ in range(rnd.randint(1, 3))]))
             else:
-                do(w.unsubscribe(a, rnd.choice([5, None])))
+                do(w.unsubscribe(a, rnd.choice([5, None, [], []])))
         elif name == "set":
             k = rnd.random()
             if k < 0.5:
